@@ -81,9 +81,11 @@ class Exec:
 _COUNTER = [0]
 
 
-def execute(scn, prefix, base, step_budget=300):
+def execute(scn, prefix, base, step_budget=400, strict=True):
     """run scenario `scn` on the real FileCache following the choice list `prefix`
-    (then: keep running the previous thread if it is enabled, else the first enabled one)"""
+    (then: keep running the previous thread if it is enabled, else the first enabled one).
+    strict=False (recorded witnesses / replays, possibly made on another tree): a recorded choice
+    that is not enabled here ends the replay of the list; the run continues with the default policy"""
     import klongpy.db.file_cache as fcm
     _COUNTER[0] += 1
     root = os.path.join(base, f"r{_COUNTER[0]}")       # never reused: a leaked thread of an aborted run cannot touch it
@@ -177,10 +179,14 @@ def execute(scn, prefix, base, step_budget=300):
             for i, ops in enumerate(scn["threads"]):
                 sched.spawn(f"T{i}", "client", client(f"T{i}", ops))
 
+            ex.diverged = None
+
             def chooser(i, en, prev):
                 j = i - ex.setup_steps
-                if j < len(prefix):
-                    return prefix[j]
+                if j < len(prefix) and ex.diverged is None:
+                    if strict or prefix[j] in en:
+                        return prefix[j]
+                    ex.diverged = j
                 return default(i, en, prev)
             status = sched.run(chooser)
         ex.status = status
@@ -504,6 +510,8 @@ def model_line(scn, ex):
     progs = ([scn["setup"]] if scn.get("setup") else []) + scn["threads"]
     steps = []
     for st in ex.trace:
+        if st["label"] == "unlock":
+            continue
         ev = []
         if st["tid"].startswith("K") and st["label"] == "lock":
             own = ex.futures[int(st["tid"][1:])]["name"]
@@ -527,8 +535,11 @@ def _enc_res(res):
 def real_view(scn, ex):
     """what the model reports, computed from the real run (same canonical form)"""
     order = (["S"] if scn.get("setup") else []) + [f"T{i}" for i in range(len(scn["threads"]))]
-    en = ";".join(",".join(_cid(scn, t) for t in sorted(st["enabled"], key=lambda x: (x[0] == "K", int(x[1:] or 0) if x != "S" else -1)))
-                  for st in ex.trace)
+    # enabled sets before every machine step; threads parked at a stutter point (`unlock`) are
+    # left out on both sides (the machine has already moved them to their next real point)
+    en = [(sorted(_cid(scn, t) for t in st["enabled"] if t not in st.get("parked", [])),
+           sorted(_cid(scn, t) for t in st.get("parked", [])))
+          for st in ex.trace if st["label"] != "unlock"]
     ents = ",".join(sorted(f"{n}/{1 if e['writing'] else 0}/{e['size']}/{e['fid']}" for n, e in ex.entries.items()))
     disk = ",".join(sorted(f"{n}@{hx}" for n, hx in ex.disk.items()))
     tasks = ",".join(("ok:" + f["value"]) if f["done"] and f["exc"] is None and f["value"] is not None
@@ -544,12 +555,17 @@ def compare_model(scn, ex, reply):
     if f["_"] != "ok":
         return f"machine refused the real schedule: {reply[:300]}"
     rv = real_view(scn, ex)
-    if scn.get("setup"):        # during the setup phase the other clients have not been started yet
-        ens = f.get("en", "").split(";")
-        for i in range(min(ex.setup_steps, len(ens))):
-            ens[i] = ",".join(w for w in ens[i].split(",") if w == "C0" or w.startswith("K"))
-        f["en"] = ";".join(ens)
-    for k in ("en", "mem", "entries", "acc", "disk", "tasks", "res"):
+    ens = [set(x for x in e.split(",") if x) for e in f.get("en", "").split(";")] if f.get("en", "") else []
+    nsetup = sum(1 for st in ex.trace[:ex.setup_steps] if st["label"] != "unlock")
+    if len(ens) != len(rv["en"]):
+        return f"en: machine has {len(ens)} steps, real run {len(rv['en'])}"
+    for i, (real_en, parked) in enumerate(rv["en"]):
+        m = ens[i] - set(parked)
+        if scn.get("setup") and i < nsetup:     # the other clients have not been started yet
+            m = {w for w in m if w == "C0" or w.startswith("K")}
+        if m != set(real_en):
+            return f"en[{i}]: machine={sorted(m)} real={real_en} parked={parked}"
+    for k in ("mem", "entries", "acc", "disk", "tasks", "res"):
         if f.get(k, "") != rv[k]:
             return f"{k}: machine={f.get(k, '')!r} real={rv[k]!r}"
     if ex.status == "ok" and f.get("final", "") != "":
@@ -748,7 +764,7 @@ def work_witness(args):
                infra=None, witness=(fid, None))
     for attempt in (0, 1, 2):
         try:
-            ex = execute(scn, choices, _W["base"])
+            ex = execute(scn, choices, _W["base"], strict=False)
             check_execution(scn, ex, choices, _W.get("drv"), out)
             out["witness"] = (fid, any(f[0] == key for f in out["fails"]))
             break
@@ -847,7 +863,7 @@ def replay(ctx, case):
     base = ctx.mkdtemp()
     drv = Driver("c18") if getattr(ctx, "driver_ok", True) else None
     try:
-        ex = execute(scn, choices, base)
+        ex = execute(scn, choices, base, strict=False)
         out = dict(n=0, hist=collections.Counter(), fails=[], mismatches=[])
         check_execution(scn, ex, choices, drv, out)
         _merge(ctx, out)
